@@ -13,6 +13,7 @@ Fixpoint sets_ll (s : stmt) : bool :=
   match s with
   | SBreak | SContinue => true
   | SWith false b => sets_ll_b b
+  | STry _ _ _ f => sets_ll_b f     (* the finally block is visited, the second time, in the current dict *)
   | _ => false
   end
 with sets_ll_b (b : block) : bool :=
@@ -42,10 +43,10 @@ with free_jump_hs (hs : handlers) : bool :=
   | HCons h r => free_jump_b h || free_jump_hs r
   end.
 
-(* lower_ok: (1) nothing follows, in the same block, a statement that can set
-   LEAVES_LOOP in the current dict; (2) no break/continue leaves a
-   try statement that has a finally clause (from its try/except/else part or from the
-   finally block itself) *)
+(* lower_ok: nothing follows, in the same block, a statement that can set LEAVES_LOOP in the
+   current dict (break, continue, a non-suppressing with or a finally block ending in one).
+   The former second clause (no break/continue leaving a try statement that has a finally
+   clause) is gone since visit_Try hands the scope after the finally block to the loop. *)
 Fixpoint lower_ok_s (s : stmt) : bool :=
   match s with
   | SIf b e => lower_ok_b b && lower_ok_b e
@@ -53,7 +54,6 @@ Fixpoint lower_ok_s (s : stmt) : bool :=
   | SWith _ b => lower_ok_b b
   | STry b hs e f =>
       lower_ok_b b && lower_ok_hs hs && lower_ok_b e && lower_ok_b f
-      && (is_nil f || negb (free_jump_b b || free_jump_hs hs || free_jump_b e || free_jump_b f))
   | _ => true
   end
 with lower_ok_b (b : block) : bool :=
